@@ -29,6 +29,19 @@ def gen(rng, tier):
         for prev in (16, 32, 64, ln + 1 if ln < 64 else 63, 65, 0, 300):
             key, ctx, sid = rbytes(rng, 32), rbytes(rng, 8), rng.getrandbits(64)
             cs.append(Case("kdf_after %d %s %s %s %d" % (ln, hx(sid.to_bytes(8, "little")), hx(ctx), hx(key), prev), cls="kdf/after-another-call"))
+    # … nor does it share state with other hashing on the same thread: a derivation made right after a streaming generichash whose
+    # finalisation was REFUSED (output length 0 or > 64) while input was still buffered
+    for ln in (16, 32, 64):
+        for nbuf in (0, 1, 10, 127, 128, 129, 300):
+            for bad in (0, 65, 100):
+                key, ctx, sid = rbytes(rng, 32), rbytes(rng, 8), rng.getrandbits(64)
+                cs.append(Case("kdf_after_failed_final %d %s %s %s %d %d" % (ln, hx(sid.to_bytes(8, "little")), hx(ctx), hx(key), nbuf, bad), cls="kdf/after-refused-finalisation"))
+    # the object API over containers whose type does not carry the length (`Kdf<Vec<u8>, Vec<u8>>`): the 8 / 32-byte PREFIX is what
+    # is used (a too short one is a caller-contract panic), never the whole Vec
+    for kl in (31, 32, 33, 48, 64, 65, 100):
+        for cl in (7, 8, 9, 12, 16, 17):
+            key, ctx, sid = rbytes(rng, kl), rbytes(rng, cl), rng.getrandbits(64)
+            cs.append(Case("kdf_obj_vec %s %s %s" % (hx(sid.to_bytes(8, "little")), hx(ctx), hx(key)), cls="kdf/object-vec-containers", meta={"panic_ok": True, "no_spec": True}))
     for ln in list(range(0, 16)) + list(range(65, 81)):
         cs.append(Case("kdf %d %s %s %s" % (ln, hx((7).to_bytes(8, "little")), hx(rbytes(rng, 8)), hx(rbytes(rng, 32))), cls="kdf/rejected-len", expect="err"))
     # different ids / contexts / lengths under one key give different subkeys
